@@ -63,10 +63,13 @@ Definition write_paging_options (pv : Z) (o : cpopts) : W :=
   write_int (cp_max_pages o) +++ write_int (cp_pps o) +++
   (if pv_has_continuous_paging_next_pages pv then write_int (cp_queue o) else wnil).
 
-Definition query_flags (vals serial fetch pstate ts cpo ks : bool) : Z :=
-  Z.lor (Z.lor (Z.lor (Z.lor (Z.lor (Z.lor (flag_if vals c_VALUES_FLAG) (flag_if serial c_WITH_SERIAL_CONSISTENCY_FLAG))
+Definition query_flags (vals serial fetch pstate ts cpo cpo_bytes ks : bool) : Z :=
+  Z.lor (Z.lor (Z.lor (Z.lor (Z.lor (Z.lor (Z.lor (flag_if vals c_VALUES_FLAG) (flag_if serial c_WITH_SERIAL_CONSISTENCY_FLAG))
     (flag_if fetch c_PAGE_SIZE_FLAG)) (flag_if pstate c_WITH_PAGING_STATE_FLAG)) (flag_if ts c_PROTOCOL_TIMESTAMP_FLAG))
-    (flag_if cpo c_PAGING_OPTIONS_FLAG)) (flag_if ks c_WITH_KEYSPACE_FLAG).
+    (flag_if cpo c_PAGING_OPTIONS_FLAG)) (flag_if cpo_bytes c_PAGE_SIZE_BYTES_FLAG)) (flag_if ks c_WITH_KEYSPACE_FLAG).
+
+(* continuous_paging_options.page_unit_bytes() of the options object, when there is one *)
+Definition cpo_unit_bytes (o : option cpopts) : bool := match o with Some c => cp_unit_bytes c | None => false end.
 
 (* _QueryMessage._write_query_params *)
 Definition write_query_params (pv : Z) (m : qmsg) : W :=
@@ -79,9 +82,11 @@ Definition write_query_params (pv : Z) (m : qmsg) : W :=
   if is_some (q_cpo m) && negb (pv_has_continuous_paging_support pv) then None else
   if is_some (q_keyspace m) && negb (pv_uses_keyspace_flag pv) then None else
   let flags := query_flags (is_some (q_params m)) (is_some serial) (is_some fetch) (is_some pstate)
-                           (is_some (q_timestamp m)) (is_some (q_cpo m)) (is_some (q_keyspace m)) in
+                           (is_some (q_timestamp m)) (is_some (q_cpo m)) (cpo_unit_bytes (q_cpo m)) (is_some (q_keyspace m)) in
   write_consistency_level (q_cl m) +++
-  (if pv_uses_int_query_flags pv then write_uint flags else write_byte flags) +++
+  (if pv_uses_int_query_flags pv then write_uint flags
+   else if pv >=? 2 then write_byte flags
+   else if flags =? 0 then wnil else None) +++       (* v1 QUERY has no flags byte *)
   w_opt (q_params m) write_values +++
   w_opt fetch write_int +++
   w_opt pstate write_longstring +++
@@ -95,6 +100,7 @@ Definition execute_write_query_params (pv : Z) (m : qmsg) : W :=
   if pv =? 1 then
     if is_some (truthy_z (q_serial m)) then None else
     if is_some (truthy_z (q_fetch m)) || is_some (truthy_b (q_paging_state m)) then None else
+    if is_some (q_cpo m) then None else
     match q_params m with
     | None => None                                  (* len(None): TypeError *)
     | Some ps => write_values ps +++ write_consistency_level (q_cl m)
@@ -132,19 +138,19 @@ Definition send_body (pv : Z) (r : request) : W :=
       let flags := flag_if (is_some ks) c_PREPARED_WITH_KEYSPACE_FLAG in
       write_longstring q +++
       (if pv_uses_prepare_flags pv then write_uint flags else if flags =? 0 then wnil else None) +++
-      (if pv_uses_keyspace_flag pv then w_opt (truthy_b ks) write_string else wnil)
+      (if pv_uses_keyspace_flag pv then w_opt ks write_string else wnil)
   | Batch ty qs cl serial ts ks =>
       write_byte ty +++ write_short (len qs) +++ write_seq write_bquery qs +++
       write_consistency_level cl +++
       (if pv >=? 3 then
          let serial' := truthy_z serial in
-         let ks' := truthy_b ks in
-         if is_some ks' && negb (pv_uses_keyspace_flag pv) then None else
-         let flags := batch_flags (is_some serial') (is_some ts) (is_some ks' && pv_uses_keyspace_flag pv) in
+         if is_some ks && negb (pv_uses_keyspace_flag pv) then None else
+         let flags := batch_flags (is_some serial') (is_some ts) (is_some ks) in
          (if pv_uses_int_query_flags pv then write_int flags else write_byte flags) +++
          w_opt serial' write_consistency_level +++
          w_opt ts write_long +++
          (if pv_uses_keyspace_flag pv then w_opt ks write_string else wnil)
+       else if is_some (truthy_z serial) || is_some ts || is_some ks then None     (* v2 BATCH has no flags byte *)
        else wnil)
   | Register evs => write_stringlist evs
   | Revise op id next =>
